@@ -1373,6 +1373,9 @@ def min_or_max_and_position(arr, want_max: bool = True):
     best = arr[i]
     best_pos = i
     for j, v in enumerate(arr[i + 1 :], i):
+        if is_null(v):
+            # NaT is an ordinary (minimal) integer here and must not win the comparison
+            continue
         if want_max and v >= best or (not want_max and v <= best):
             best = v
             best_pos = j
@@ -1405,7 +1408,9 @@ def _rolling_max_or_min_1d(
     want_min = not want_max
 
     # Track rolling max/min and its position in circular buffers for each group
-    current_best = np.full(ngroups, -np.inf if want_max else np.inf)
+    # same dtype as the output/buffers (float64 would round nanosecond timestamps);
+    # the initial value is never used: the first non-null value of a group replaces it
+    current_best = np.full(ngroups, null_value)
     pos_of_current_best = np.zeros(ngroups, dtype=np.int64)
     group_buffers = np.full((ngroups, window), null_value)
     group_buffer_pos = np.zeros(ngroups, dtype=np.int64)
